@@ -183,14 +183,18 @@ def gen_inputs(crown, extra_policy, rnd, budget=400):
             child_opts = [[("absent", None)] + node_variants(node.children[k]) for k in keys]
             combos = list(itertools.product(*child_opts))
             rnd.shuffle(combos)
-            for combo in combos[:40]:
-                for extra in (False, True):
+            for ci, combo in enumerate(combos[:40]):
+                for extra in (False, True, "non-str"):
+                    if extra == "non-str" and ci % 8:
+                        continue
                     d = {}
                     for k, (tag, v) in zip(keys, combo):
                         if tag != "absent":
                             d[k] = v
-                    if extra:
+                    if extra is True:
                         d["zzz_extra"] = "E"
+                    elif extra == "non-str":
+                        d[7] = "E7"            # a key that is not a string: data as any other (C04: mappings with non-string keys)
                     out.append(("v", d))
             out += [("v", wrong) for wrong in ([1, 2], "abc", 5, None, {0: "good", 1: "good"})]
         else:
@@ -222,6 +226,9 @@ def gen_inputs(crown, extra_policy, rnd, budget=400):
             return out
         return [[(presence(node.children[i], cap=2)[-1] if i in node.children else "gap") for i in range(node.size)]]
     systematic = presence(crown)[:max(budget // 2, 100)]
+    if isinstance(crown, DictNode) and systematic:
+        full = max(systematic, key=lambda d: len(repr(d)))
+        systematic = [{**full, 7: "E7"}, {**full, "zzz_extra": "E"}, {**full, (1, 2): "E12", "zzz_extra": "E"}] + systematic
     allv = [v for _, v in node_variants(crown)]
     room = max(budget - len(systematic), budget // 2)
     if len(allv) > room:
@@ -254,6 +261,9 @@ def native_eval(case, data):
         if isinstance(node, DictNode):
             if ok and lay.extra_in == "forbid" and any(k not in node.children for k in d):
                 definite.append(f"extra-fields@{path}")
+                fine[0] = False
+            if ok and lay.extra_in == "kwargs" and path == () and any(k not in node.children and not isinstance(k, str) for k in d):
+                definite.append("extra-key-not-a-keyword")        # cannot be passed as **kwargs: must be refused with a LoadError
                 fine[0] = False
             if ok and any(isinstance(ch, Leaf) and fields[ch.field].required and k not in d for k, ch in node.children.items()):
                 definite.append(f"missing-at@{path}")
@@ -503,6 +513,17 @@ def _dispatch(job):
     return dump.verify_dump_case(j)
 
 
+_NATIVE_CLAUSE_PROPS = {"raises-closed": ["C04", "C19"], "accept-upper": ["C03", "C02", "C19"], "accept-lower": ["C03", "C02", "C01", "C19"],
+                        "binding": ["C03", "C08", "C01", "C19"], "extras-delivered": ["C03", "C19"], "modifies-nothing": ["C20"],
+                        "trail": ["C05"], "all-complete": ["C05", "C06"], "all-missing-reported": ["C05", "C06"], "field": ["C13", "C19"],
+                        "returns": ["C13", "C19"], "tree-shape": ["C03", "C19"], "value": ["C03", "C01"], "accept-iff": ["C03", "C06"],
+                        "omit-default-as-is": ["C03"], "omit-default": ["C03"], "default-of-parameter": ["C13", "C19"]}
+
+
+def _clause_props(clause):
+    return _NATIVE_CLAUSE_PROPS.get(clause.split(":")[0].split("@")[0], [])
+
+
 def extra_for_property(prop, tier, seed, group="base"):
     """the runner's `extra_checks` record for one property"""
     res = run_family(tier, seed, group)
@@ -551,7 +572,12 @@ def extra_for_property(prop, tier, seed, group="base"):
         xc = d.get("xcheck")
         if xc and xc["mismatches"]:
             for w in xc["mismatches"][:2]:
-                crashes.append((d["label"], f"all obligations discharged but the real loader disagrees natively: {w}"))
+                # discharged, yet the real program violates the clause on a concrete input: the witness stands (the symbolic model of
+                # this behaviour is too coarse — e.g. the constructor is an uninterpreted total function there)
+                if prop in _clause_props(w["clause"]):
+                    viol.append({"unit": f"genprog:{d['label']}", "clause": w["clause"].split(":")[0], "witness": w["signature"],
+                                 "obligation": f"{d['label']}/{w['clause']}/native-crosscheck", "model": None, "backend": "native-crosscheck",
+                                 "note": "all obligations discharged but the real program disagrees natively on this input", "w": w})
     viol = [v for v in viol if prop in v.get("props", [prop])]
     return {"obligations": n_obl, "discharged": n_dis, "by_backend": by_backend, "violations": viol, "undecided": undecided,
             "crashes": crashes, "functions": functions[:40], "samples": samples, "solver_time": solver_time,
